@@ -120,11 +120,22 @@ pub fn trace_process(seed: u64, n: usize) -> Vec<J> {
         ("/repo/testdata/clients.txt", "/repo/testdata/clients_data.json", vec![
             "SELECT * FROM clients", "SELECT mac_address, COUNT(*) AS n FROM clients GROUP BY mac_address"]),
     ];
+    // tables whose names differ only in letter case, and a query that spells the name a third way: whatever the answer is (today: no such
+    // table), it must be the same in every process
+    let case_defs = dir.join("case_defs.txt");
+    std::fs::write(&case_defs, "CREATE TABLE Requests(l = 'GET (\\S+)', l[1] => path TEXT);\nCREATE TABLE REQUESTS(m = ' ([0-9]{3}) ', m[1] => status INT);\nCREATE TABLE requestS(n = '^([a-z]+)', n[1] => host TEXT);").unwrap();
+    let case_data = dir.join("case_data.txt");
+    std::fs::write(&case_data, "alpha GET /a 200 x\nbeta GET /b 404 y\ngamma POST /c 500 z\n").unwrap();
+    let (cd, cdat) = (case_defs.to_str().unwrap().to_string(), case_data.to_str().unwrap().to_string());
+    let mut cases = cases;
+    cases.push((Box::leak(cd.into_boxed_str()), Box::leak(cdat.into_boxed_str()), vec![
+        "SELECT * FROM requests", "SELECT * FROM Requests", "SELECT * FROM REQUESTS", "SELECT * FROM requestS LIMIT 2", "SELECT COUNT(*) AS n FROM rEQUESTS"]));
     let extra = ["CREATE TABLE zz1('(a)' => a TEXT);", "CREATE TABLE aa2(l = 'x(y)', l[1] => b INT);", "CREATE TABLE mm3({ .q } => q REAL);"];
     let mut ev = Vec::new();
     for i in 0..n {
-        let (defs, data, queries) = &cases[rng.gen_range(0..cases.len())];
-        let query = queries[rng.gen_range(0..queries.len())];
+        // round-robin over the corpora (last one first) and their queries, so that a short run still visits every corpus
+        let (defs, data, queries) = &cases[(cases.len() - 1 + i) % cases.len()];
+        let query = queries[(i / cases.len()) % queries.len()];
         let base_defs = std::fs::read_to_string(defs).unwrap();
         let fmt = ["text", "json", "csv"][rng.gen_range(0..3)];
         tick(&json!({"i": i, "query": query}));
